@@ -4,11 +4,13 @@
 // so this harness never evaluates fuzzed source in the process that reads the case file:
 //
 //	supervisor (default mode): reads the cases, keeps a pool of child processes (this same
-//	  binary with C10_CHILD=1), hands each child ONE case at a time and waits for its answer.
+//	  binary with C10_CHILD=1); each child executes ONE case at a time, in order (a small window
+//	  of further cases is already in its pipe); the first unanswered case is the one to blame.
 //	  A child that dies        -> observable "crash:<first fatal/panic line of its stderr>", child replaced.
-//	  A child that says timeout -> observable "timeout", child killed and replaced (the runaway
-//	  goroutine cannot be stopped from inside).
-//	  A child that does not answer within timeout+grace -> "timeout", killed and replaced.
+//	  A child that says timeout (or does not answer within timeout+grace) is killed (the runaway
+//	  goroutine cannot be stopped from inside) and the case is tried once more, alone in a fresh
+//	  child with C10_RETRY_FACTOR (4) times the limit; only a second timeout is reported as
+//	  "timeout" (a loaded machine must not produce false hangs).
 //	child: hlib.Main() with one worker; address space and goroutine stack are bounded
 //	  (RLIMIT_AS from C10_AS_MB, debug.SetMaxStack from C10_MAXSTACK_MB, GOMEMLIMIT from the env).
 //
@@ -106,10 +108,10 @@ func childMain() {
 // ---------------------------------------------------------------------------- supervisor
 
 type child struct {
-	cmd    *exec.Cmd
-	in     io.WriteCloser
-	out    *bufio.Reader
-	errBuf *tailBuf
+	cmd     *exec.Cmd
+	in      io.WriteCloser
+	answers chan string // one line per answered case; closed when the child's stdout ends
+	errBuf  *tailBuf
 }
 
 type tailBuf struct {
@@ -134,9 +136,14 @@ func (t *tailBuf) String() string {
 	return string(t.b)
 }
 
-func startChild() (*child, error) {
+// startChild starts a child; slow > 1 multiplies the child's per-case time limit (used for the
+// one retry of a case that timed out, so that a loaded machine does not produce false hangs).
+func startChild(slow int) (*child, error) {
 	cmd := exec.Command(os.Args[0])
 	cmd.Env = append(os.Environ(), "C10_CHILD=1", "HARNESS_WORKERS=1")
+	if slow > 1 {
+		cmd.Env = append(cmd.Env, "HARNESS_TIMEOUT_MS="+strconv.Itoa(slow*envInt("HARNESS_TIMEOUT_MS", 10000)))
+	}
 	in, err := cmd.StdinPipe()
 	if err != nil {
 		return nil, err
@@ -150,13 +157,25 @@ func startChild() (*child, error) {
 	if err := cmd.Start(); err != nil {
 		return nil, err
 	}
-	return &child{cmd: cmd, in: in, out: bufio.NewReaderSize(out, 1<<20), errBuf: eb}, nil
+	c := &child{cmd: cmd, in: in, answers: make(chan string, 64), errBuf: eb}
+	go func() {
+		r := bufio.NewReaderSize(out, 1<<20)
+		for {
+			s, err := r.ReadString('\n')
+			if err != nil {
+				close(c.answers)
+				return
+			}
+			c.answers <- strings.TrimRight(s, "\n")
+		}
+	}()
+	return c, nil
 }
 
 func (c *child) kill() {
 	_ = c.in.Close()
 	_ = c.cmd.Process.Kill()
-	_, _ = c.cmd.Process.Wait()
+	go func() { _ = c.cmd.Wait() }()
 }
 
 var fatalRE = regexp.MustCompile(`(?m)^(fatal error: .*|runtime: goroutine stack exceeds .*|panic: .*|signal: .*)$`)
@@ -183,36 +202,149 @@ func crashText(c *child) string {
 	return "crash:unknown"
 }
 
-type answer struct {
-	line string
-	err  error
+type job struct {
+	id, line string
 }
 
-// ask sends one case line to the child and waits for its one answer line.
-func (c *child) ask(line string, wait time.Duration) (string, bool) {
-	if _, err := io.WriteString(c.in, line+"\n"); err != nil {
-		return "", false
+// worker owns one child at a time and keeps up to `window` cases in flight in it (the child
+// answers them in order, one at a time).  The first unanswered case is the one being executed:
+// it gets the blame for a crash or a timeout, the others go back to the worker's own queue.
+type worker struct {
+	lines       <-chan string
+	emit        func(id, res string)
+	window      int
+	wait        time.Duration
+	retryFactor int
+}
+
+// alone runs one case in a fresh child with the time limit multiplied by slow.
+func (w *worker) alone(j job, slow int) string {
+	c, err := startChild(slow)
+	if err != nil {
+		return "harness-error:cannot start child: " + err.Error()
 	}
-	ch := make(chan answer, 1)
-	go func() {
-		s, err := c.out.ReadString('\n')
-		ch <- answer{s, err}
-	}()
+	defer c.kill()
+	if _, err := io.WriteString(c.in, j.line+"\n"); err != nil {
+		return crashText(c)
+	}
 	select {
-	case a := <-ch:
-		if a.err != nil {
-			return "", false
+	case ans, ok := <-c.answers:
+		if !ok {
+			return crashText(c)
 		}
-		return strings.TrimRight(a.line, "\n"), true
-	case <-time.After(wait):
-		return "\x00timeout", true
+		if k := strings.IndexByte(ans, '\t'); k >= 0 && ans[:k] == j.id {
+			return ans[k+1:]
+		}
+		return "harness-error:unexpected answer " + strconv.Quote(ans)
+	case <-time.After(time.Duration(slow) * w.wait):
+		return "timeout"
 	}
+}
+
+func (w *worker) run() {
+	var c *child
+	var queue, pending []job // queue: to be sent (again); pending: sent to c, unanswered
+	drop := func() {
+		if c != nil {
+			c.kill()
+			c = nil
+		}
+		queue = append(pending[min(1, len(pending)):], queue...)
+		pending = nil
+	}
+	defer func() {
+		if c != nil {
+			c.kill()
+		}
+	}()
+	open := true
+	for {
+		// top up the window
+		for len(pending) < w.window {
+			var j job
+			if len(queue) > 0 {
+				j, queue = queue[0], queue[1:]
+			} else if !open {
+				break
+			} else if len(pending) == 0 {
+				line, ok := <-w.lines
+				if !ok {
+					open = false
+					break
+				}
+				j = mkJob(line)
+			} else {
+				select {
+				case line, ok := <-w.lines:
+					if !ok {
+						open = false
+					} else {
+						j = mkJob(line)
+					}
+				default:
+				}
+				if j.id == "" {
+					break
+				}
+			}
+			if c == nil {
+				var err error
+				if c, err = startChild(1); err != nil {
+					c = nil
+					w.emit(j.id, "harness-error:cannot start child: "+err.Error())
+					continue
+				}
+			}
+			pending = append(pending, j)
+			if _, err := io.WriteString(c.in, j.line+"\n"); err != nil {
+				break // the child is gone; the read below notices
+			}
+		}
+		if len(pending) == 0 {
+			if !open && len(queue) == 0 {
+				return
+			}
+			continue
+		}
+		head := pending[0]
+		select {
+		case ans, ok := <-c.answers:
+			switch {
+			case !ok:
+				res := crashText(c)
+				drop()
+				w.emit(head.id, res)
+			default:
+				k := strings.IndexByte(ans, '\t')
+				if k < 0 || ans[:k] != head.id {
+					drop()
+					w.emit(head.id, "harness-error:unexpected answer "+strconv.Quote(ans))
+				} else if ans[k+1:] == "timeout" {
+					drop()
+					w.emit(head.id, w.alone(head, w.retryFactor))
+				} else {
+					pending = pending[1:]
+					w.emit(head.id, ans[k+1:])
+				}
+			}
+		case <-time.After(w.wait):
+			drop()
+			w.emit(head.id, w.alone(head, w.retryFactor))
+		}
+	}
+}
+
+func mkJob(line string) job {
+	id := line
+	if k := strings.IndexByte(line, '\t'); k >= 0 {
+		id = line[:k]
+	}
+	return job{id, line}
 }
 
 func supervisorMain() {
-	workers := envInt("C10_PROCS", runtime.NumCPU())
+	procs := envInt("C10_PROCS", runtime.NumCPU())
 	timeoutMs := envInt("HARNESS_TIMEOUT_MS", 10000)
-	wait := time.Duration(timeoutMs)*time.Millisecond + 5*time.Second
 
 	lines := make(chan string, 1024)
 	var mu sync.Mutex
@@ -224,54 +356,17 @@ func supervisorMain() {
 		mu.Unlock()
 	}
 	var wg sync.WaitGroup
-	for i := 0; i < workers; i++ {
+	for i := 0; i < procs; i++ {
 		wg.Add(1)
 		go func() {
 			defer wg.Done()
-			var c *child
-			defer func() {
-				if c != nil {
-					c.kill()
-				}
-			}()
-			for line := range lines {
-				id := line
-				if k := strings.IndexByte(line, '\t'); k >= 0 {
-					id = line[:k]
-				}
-				if c == nil {
-					var err error
-					if c, err = startChild(); err != nil {
-						emit(id, "harness-error:cannot start child: "+err.Error())
-						c = nil
-						continue
-					}
-				}
-				ans, alive := c.ask(line, wait)
-				switch {
-				case !alive:
-					emit(id, crashText(c))
-					c.kill()
-					c = nil
-				case ans == "\x00timeout":
-					emit(id, "timeout")
-					c.kill()
-					c = nil
-				default:
-					k := strings.IndexByte(ans, '\t')
-					if k < 0 || ans[:k] != id {
-						emit(id, "harness-error:unexpected answer "+strconv.Quote(ans))
-						c.kill()
-						c = nil
-						continue
-					}
-					emit(id, ans[k+1:])
-					if ans[k+1:] == "timeout" {
-						c.kill()
-						c = nil
-					}
-				}
-			}
+			(&worker{
+				lines:       lines,
+				emit:        emit,
+				window:      envInt("C10_WINDOW", 16),
+				wait:        time.Duration(timeoutMs)*time.Millisecond + 10*time.Second,
+				retryFactor: envInt("C10_RETRY_FACTOR", 4),
+			}).run()
 		}()
 	}
 	sc := bufio.NewScanner(os.Stdin)
